@@ -291,6 +291,7 @@ func runC03(e *Engine, r *Report) {
 		if committed != nil {
 			r.check(e.returnDependsOn(hasCC, isFieldLoad(committed), 1), "DEP-campaign", fname(hasCC)+" depends on entryLog.committed", e.pos(hasCC.Pos()),
 				"the pending-config-change test reads the commit index", "the pending-config-change test no longer reads the commit index")
+			ruleCampaignPredicate(e, r)
 		}
 	}
 
